@@ -1,5 +1,5 @@
 (* C10 — TPS text and positions round-trip without loss.
-   Only statements, `exact`, and Print Assumptions live here.  Proofs: TpsFacts.v, TpsFacts2.v .. TpsFacts8.v.
+   Only statements, `exact`, and Print Assumptions live here.  Proofs: TpsFacts.v, TpsFacts2.v .. TpsFacts9.v.
 
    Vocabulary (all defined in those files, none of them in the model files):
      at_sq p i            Position.At: the stack on square i, top piece first (model, Tps.v)
@@ -18,6 +18,7 @@
                           piece deeper than the 64-bit stack word) and 0 <= mv < 2^63 *)
 From Coq Require Import NArith ZArith List Bool Ascii String.
 Require Import Board Move GameOver PtnMove Playtak Tps TpsFacts TpsFacts2 TpsFacts3 TpsFacts4 TpsFacts5 TpsFacts6 TpsFacts7 TpsFacts8.
+Require Import Alloc Preserve1 Preserve5 Reach1 Generated.Consts TpsFacts9.
 Import ListNotations.
 
 (* Square layer: the text tpsSquare writes for one square parses back, through the stack branch of parseRow, to
@@ -101,6 +102,43 @@ Theorem C10_format_parse_format : forall basis p, (3 <= size p <= 8)%N -> (0 <= 
   exists q, parse_tps basis (format_tps p) = Move.Ok q /\ format_tps q = format_tps p.
 Proof. exact format_parse_format. Qed.
 Print Assumptions C10_format_parse_format.
+
+(* Reachable positions satisfy the hypotheses.  (1) The invariant of Move (C01, pos_ok) implies the canonical
+   representation; (2) `reserves_match_reachable` of DESIGN 5.10: the rules conserve reserve + pieces on the board per
+   colour and stones/capstones, so every position replayed from tak.New with the default counts - by ANY raw move
+   values but Pass, as long as no position on the way has a stack above 64 pieces (the limit of the uint64 stack word,
+   see C01) - is canonically represented, has reserves matching its board, and its ply is the number of moves. *)
+Theorem C10_pos_ok_rep_ok : forall p, pos_ok p -> rep_ok gen_basis p.
+Proof. exact pos_ok_rep_ok. Qed.
+Print Assumptions C10_pos_ok_rep_ok.
+
+Theorem C10_reserves_match_reachable : forall sz bwt ms p, (3 <= sz <= 8)%N -> no_pass ms ->
+  let stones := nth (N.to_nat sz) default_pieces 0%N in let caps := nth (N.to_nat sz) default_caps 0%N in
+  (forall ms1 ms2 q, ms = ms1 ++ ms2 -> replay (new_pos sz bwt stones caps) ms1 = Move.Ok q -> heights64 q) ->
+  replay (new_pos sz bwt stones caps) ms = Move.Ok p ->
+  (3 <= size p <= 8)%N /\ rep_ok gen_basis p /\ reserves_match_board p /\ Move.move p = Z.of_nat (List.length ms).
+Proof. exact reachable_round_trip_hyps. Qed.
+Print Assumptions C10_reserves_match_reachable.
+
+(* on boards 3x3 .. 6x6 a game has at most 62 pieces and the height side condition disappears *)
+Theorem C10_reserves_match_reachable_small : forall sz bwt ms p, (3 <= sz <= 6)%N -> no_pass ms ->
+  let stones := nth (N.to_nat sz) default_pieces 0%N in let caps := nth (N.to_nat sz) default_caps 0%N in
+  replay (new_pos sz bwt stones caps) ms = Move.Ok p ->
+  (3 <= size p <= 8)%N /\ rep_ok gen_basis p /\ reserves_match_board p /\ Move.move p = Z.of_nat (List.length ms).
+Proof. exact reachable_round_trip_hyps_small. Qed.
+Print Assumptions C10_reserves_match_reachable_small.
+
+(* The first sentence of the property on its own quantifier: every reachable position round-trips. *)
+Theorem C10_tps_round_trip_reachable : forall sz bwt ms p, (3 <= sz <= 8)%N -> no_pass ms -> (Z.of_nat (List.length ms) < 2 ^ 63)%Z ->
+  let stones := nth (N.to_nat sz) default_pieces 0%N in let caps := nth (N.to_nat sz) default_caps 0%N in
+  (forall ms1 ms2 q, ms = ms1 ++ ms2 -> replay (new_pos sz bwt stones caps) ms1 = Move.Ok q -> heights64 q) ->
+  replay (new_pos sz bwt stones caps) ms = Move.Ok p ->
+  exists q, parse_tps gen_basis (format_tps p) = Move.Ok q
+    /\ equal p q = true /\ equal q p = true /\ hash_of q = hash_of p
+    /\ whiteStones q = whiteStones p /\ whiteCaps q = whiteCaps p /\ blackStones q = blackStones p /\ blackCaps q = blackCaps p
+    /\ to_move_white q = to_move_white p /\ Move.move q = Move.move p.
+Proof. exact tps_round_trip_reachable. Qed.
+Print Assumptions C10_tps_round_trip_reachable.
 
 (* Non-vacuity: a 5x5 position with a seven-high stack under a black capstone, a white wall on a black flat, a lone
    white capstone and empty runs of every length 1..5 satisfies all hypotheses above; its text is canonical. *)
